@@ -14,6 +14,8 @@ Mirrors, statement by statement where it matters:
   front is the issuing service itself is delivered in place through that service's
   `ClientSessions.PushMsg` with the serialized message;
 * `node/builtin/system.go` `Entry.PushMsg` = `ClientSessions.PushMsg` + one callback.
+* `channelservice.go` `Service.PushMessageByIds / PushMessageById` and `impls.PushMessageById` (direct pushes,
+  section "direct pushes" below); a message the client serializer rejects is pushed with empty data.
 * retained `*Channel` handles (section "retained channel handles" below): `DeleteChannel` only unbinds the
   name, the object keeps its groups for whoever holds the pointer; `c.Add / c.Leave / c.PushMessage` on a
   bound or stale handle; `FreeTempChannel(c)` = `DeleteChannel(c.GetName())`.
@@ -242,6 +244,26 @@ def forwardedFrom (s : St) (dir : List String) (ps : List Push) : List Push :=
 names -/
 def remoteDeliveries (ser : String → List Nat) (b : String) (blive : List Nat) (sent : List Push) : List Delivery :=
   sent.flatMap fun p => if p.front = b then pushMsg blive p.ids p.route (ser p.msg) else []
+
+/-! ### direct pushes: `channel.Service.PushMessageByIds / PushMessageById`
+
+No channel is involved: the caller's `(front, ids)` go to the push layer as they are —
+`Service.PushMessageByIds` is one call of `IPushMessager.PushMessageByIds` and one completion of
+the callback; `impls.PushMessageById` is the same path with the one-element list `[]uint32{id}`
+(`pushLocal` in place for the issuing service itself, otherwise one `sys.pushmsg` to a service the
+directory knows).  What happens to the tuple afterwards is `localDeliveries` / `forwardedFrom` /
+`remoteDeliveries`, exactly as for a tuple of a broadcast.
+
+An unserialisable message: `pmsg.Data, _ = Serializer.Marshal(msg)` drops the error, so the push goes
+out to the same connections with empty data — in the model that is a serializer with `ser msg = []`
+(every theorem quantifies over `ser`). -/
+
+def directPush (f : String) (ids : List Nat) (route msg : String) : List Push := [⟨f, ids, route, msg⟩]
+
+def directPush1 (f : String) (id : Nat) (route msg : String) : List Push := directPush f [id] route msg
+
+/-- the observation of a direct push issued by the service in state `s` -/
+def directObs (ser : String → List Nat) (s : St) (ps : List Push) : Obs := .pushes ps (localDeliveries ser s ps)
 
 /-! ### abstract reading of a history (what the property statement talks about) -/
 
